@@ -195,6 +195,56 @@ def suite_apply_paint_model(ctx, res, n):
             res.add_tie_break(f"svg._apply_paint vs applyPaintFill: gradient parameter at {bad[0]}: model {bad[1]} real {bad[2]}", {"paint": cp}, m, real)
 
 
+
+def suite_regroup_model(ctx, res, n):
+    """Tie for Model/Regroup.lean `regroup` (theorems regroup_contiguous, regroup_perm): the real svg._ensure_groups_grouped_in_glyph_order on
+    a real TTFont; the new glyph order must be the model's and every colour glyph's recorded glyph_id must be its new position."""
+    import collections
+    import io
+    from fontTools import ttLib
+    from nanoemoji import svg as nsvg
+    from harness.props import C13
+
+    CG = collections.namedtuple("CG", "glyph_id")
+    rng = ctx.rng
+    buf = io.BytesIO()
+    C13.build_base_font().save(buf)
+    ops, meta = [], []
+    for _ in range(n):
+        font = ttLib.TTFont(io.BytesIO(buf.getvalue()), lazy=False)
+        for tag in font.keys():
+            font[tag]   # fully load (reorder_glyphs requires it)
+        order = font.getGlyphOrder()
+        movable = order[1:]
+        k = rng.randint(1, len(movable))
+        chosen = rng.sample(movable, k)
+        groups = []
+        while chosen:
+            m = rng.randint(1, min(3, len(chosen)))
+            groups.append(tuple(chosen[:m]))
+            chosen = chosen[m:]
+        color_glyphs = {g: CG(order.index(g)) for grp in groups for g in grp}
+        try:
+            nsvg._ensure_groups_grouped_in_glyph_order(color_glyphs, font, tuple(groups))
+        except Exception as e:  # noqa
+            res.stat("regroup:real-raises:" + type(e).__name__)
+            continue
+        new_order = font.getGlyphOrder()
+        ids = {g: cg.glyph_id for g, cg in color_glyphs.items()}
+        ops.append({"op": "regroup", "old": order, "groups": [list(g) for g in groups]})
+        meta.append((order, groups, new_order, ids))
+    for (order, groups, new_order, ids), m in zip(meta, ctx.driver.run(ops)):
+        res.count(key=("regroup", stable_hash([order, groups])), nontrivial=len(groups) >= 2)
+        res.stat("regroup:cases")
+        if m.get("order") != new_order:
+            res.add_tie_break("_ensure_groups_grouped_in_glyph_order vs Model regroup", {"old": order, "groups": groups}, m, new_order)
+        stale = {g: (i, new_order.index(g)) for g, i in ids.items() if new_order.index(g) != i}
+        if stale:
+            res.add_cex("after the OT-SVG regrouping a colour glyph's recorded glyph_id is not its position in the new glyph order "
+                        "(its document would be filed under another glyph's ID)", {"old": order, "groups": groups, "stale": stale},
+                        {"site": "otsvg-regroup-gid", "groups": [list(g) for g in groups]})
+
+
 def suite_fonts(ctx, res, n):
     for _ in range(max(2, n // 10)):
         case = shared_radial_case(ctx.rng, ctx.rng.choice(["picosvg", "picosvgz"]))
@@ -246,6 +296,7 @@ def run(ctx, res):
         if "err" not in out:
             check_otsvg_font(ctx, res, c, out)
     suite_apply_paint_model(ctx, res, ctx.budget(150, 3000))
+    suite_regroup_model(ctx, res, ctx.budget(80, 1500))
     suite_fonts(ctx, res, ctx.budget(40, 1000))
 
 
